@@ -32,6 +32,8 @@ func main() {
 		genC20(r)
 	case "SIGN", "C08", "C16":
 		genSign(r, *prop)
+	case "C15":
+		genC15(r)
 	case "C02":
 		genC02(r)
 	case "C01", "C07", "C13":
